@@ -110,18 +110,31 @@ def unknowns(ctx, field, spread=0.2, J_index=None):
     return np.concatenate(xs)
 
 
-TOL = dict(tol=1e-9, box={"atom:uf": (-1, 1)})  # relative to max |material response| (the identities are linear in the atoms)
+TOL = dict(tol=1e-9, box={"atom:uf": (-1, 1), "atom:root": (0.01, 100)})  # relative to max |material response| (the identities are linear in the atoms)
 
 
 def check_item(ctx, field, make_item, x, W=None, symmetric=False, evaluate_twice=False, name="", abstract_area=False, tol=None, box=None):
     install(ctx, field, x)
     item = make_item()
+    restore = None
     if abstract_area:
         # the cofactor map is abstracted (uninterpreted Cof(F) with major-symmetric derivative); C03 proves
-        # the real AreaChange.gradient = d AreaChange.function
+        # the real AreaChange.gradient = d AreaChange.function (and VolumeChange: dJ/dF = Cof)
         item._area_change = AbstractAreaChange(ctx)
         if hasattr(item.results, "state"):
+            import felupe.mechanics._helpers as H
+
             item.results.state.dJdF = item._area_change.function
+            restore = (H, H.det)
+            H.det = item._area_change.det
+    try:
+        return _check_item(ctx, field, item, x, W, symmetric, evaluate_twice, name, tol, box)
+    finally:
+        if restore:
+            restore[0].det = restore[1]
+
+
+def _check_item(ctx, field, item, x, W, symmetric, evaluate_twice, name, tol, box):
 
     def vec(xv):
         install(ctx, field, xv)
@@ -313,10 +326,10 @@ def cases(tier):
         if thorough:
             out.append(("mixed", case_mixed, {"family": "hex8", "wrapper": w, "kind": "Field"}))
             out.append(("mixed", case_mixed, {"family": "quad4axi", "wrapper": w, "kind": "Axisymmetric"}))
-    out.append(("nearly_incompressible", case_nearly_incompressible, {"family": "quad4", "kind": "PlaneStrain"}))
+    out.append(("nearly_incompressible", case_nearly_incompressible, {"family": "quad4", "kind": "PlaneStrain", "abstract_area": True}))
     if thorough:
-        out.append(("nearly_incompressible", case_nearly_incompressible, {"family": "hex8", "kind": "Field"}))
-        out.append(("nearly_incompressible", case_nearly_incompressible, {"family": "quad4axi", "kind": "Axisymmetric"}))
+        out.append(("nearly_incompressible", case_nearly_incompressible, {"family": "hex8", "kind": "Field", "abstract_area": True}))
+        out.append(("nearly_incompressible", case_nearly_incompressible, {"family": "quad4axi", "kind": "Axisymmetric", "abstract_area": True}))
     for which in ("pressure", "cauchy"):
         out.append(("surface_load", case_surface_load, {"family": "quad4", "which": which}))
         out.append(("surface_load", case_surface_load, {"family": "hex8", "which": which}))
